@@ -29,7 +29,9 @@ ALSO = {'C02-2': ['C07'], 'C03-1': ['C14'], 'C03-2': ['C11'], 'C05-2': ['C18'], 
         'C12-3': ['C07'], 'C12-4': ['C06'], 'C13-5': ['C18'], 'C14-5': ['C03'], 'C16-5': ['C02'],
         # rounds 4 and 5
         'C10-9': ['C07'], 'C06-10': ['C03'], 'C10-10': ['C12'], 'C16-12': ['C04', 'C01'], 'C04-12': ['C01'],
-        'C05-12': ['C01'], 'C15-11': ['C14']}
+        'C05-12': ['C01'], 'C15-11': ['C14'],
+        # round 6
+        'C02-14': ['C07'], 'C03-14': ['C08'], 'C03-13': ['C09'], 'C12-11': ['C04', 'C07'], 'C16-13': ['C18']}
 MUTANT_CHECKS = {'c06-': ['C06'], 'd20-': ['C04']}
 
 
